@@ -175,7 +175,7 @@ def edit(ctx):
             G.require(ctx, new.lower() != old.lower())
             lines = lines[:e] + [" ".join(words[:-1] + [new])] + lines[e + 1:]
     tag = ""
-    endl = _lines(p["prog"])[e].strip().lower()
+    endl = _lines(p["prog"])[e].strip().lower().lstrip("0123456789").strip()      # the END DO may carry a label
     if kind in ("del_open", "dup_end") and (endl.startswith("end do") or endl.startswith("enddo")):
         for l in _lines(p["prog"])[:s]:
             w = l.strip().split(" ")
